@@ -172,6 +172,7 @@ th_ptr -> 4080-4087:
     size_in_bytes +=  0xFFF;
     size_in_bytes &= ~0xFFF;
     char * th_ptr = myth_flmalloc(env->rank, size_in_bytes);
+    MYTH_VERIF_STACK_BLOCK(th_ptr, size_in_bytes);
     th_ptr += size_in_bytes - (sizeof(void*) * 2);
     uintptr_t *blk_size = (uintptr_t*) (th_ptr + sizeof(void*));
     *blk_size = size_in_bytes;
